@@ -96,7 +96,8 @@ Proof.
     constructor; [exact I|]. constructor; [|constructor].
     cbn. unfold rcv_ok. cbn. split; [reflexivity|]. split; [intro Hc; discriminate|]. intros _. reflexivity.
   - inversion H. constructor.
-  - inversion H. constructor.
+  - inversion H. repeat constructor.
+  - match type of H with (if ?b then _ else _) = _ => destruct b end; inversion H; constructor.
   - destruct ((c_state (get_conn st k) =? c_connectionClosed) || negb room); inversion H; constructor.
   - destruct (c_state (get_conn st k) =? c_connectionActive); inversion H; constructor.
   - destruct (frameTypeFor (f_mt f)) as [ft|] eqn:Eft; [|inversion H; constructor].
@@ -175,6 +176,7 @@ Proof.
     + left. exists it. repeat split. exact Hin.
   - left. apply Hsame. inversion H. reflexivity.
   - left. apply Hsame. inversion H. reflexivity.
+  - left. apply Hsame. match type of H with (if ?b then _ else _) = _ => destruct b end; inversion H; reflexivity.
   - left. apply Hsame. destruct ((c_state (get_conn st k) =? c_connectionClosed) || negb room); inversion H; reflexivity.
   - left. apply Hsame. destruct (c_state (get_conn st k) =? c_connectionActive); inversion H; reflexivity.
   - left. apply Hsame. destruct (frameTypeFor (f_mt f)); [|inversion H; reflexivity].
@@ -230,6 +232,7 @@ Proof.
   - unfold timer_new in H. cbn [fst snd] in H. inversion H. split; [reflexivity|left; reflexivity].
   - inversion H. split; [reflexivity|left; reflexivity].
   - inversion H. split; [reflexivity|left; reflexivity].
+  - match type of H with (if ?b then _ else _) = _ => destruct b end; inversion H; split; try reflexivity; left; reflexivity.
   - destruct ((c_state (get_conn st k) =? c_connectionClosed) || negb room); inversion H; split; try reflexivity.
     + left. reflexivity.
     + right. left. exists k, id, code. split; reflexivity.
@@ -309,7 +312,8 @@ Proof.
     + apply (w_items _ HW).
     + apply (w_sent _ HW).
   - unfold step in H. destruct (negb (panicked st =? 0)); [discriminate|].
-    destruct (mem_key t (gcs st)); [|discriminate]. inversion H. subst.
+    destruct (mem_key t (gcs st)) eqn:Emem; [|discriminate]. inversion H. subst.
+    gc_delete HI.
     destruct (items_delete (set_gcs st (remove_one t (gcs st))) t) as [st' g] eqn:E. cbn [fst].
     apply items_delete_spec in E. cbn [set_gcs conns gcs threads cblog sent seen next_call items] in E.
     destruct E as (_&_&A&_&B&C&_&D). constructor; rewrite ?A, ?B, ?C.
@@ -417,6 +421,7 @@ Proof.
     + left. exists it. split; [exact Hin|tauto].
   - left. apply Hsame. inversion H. reflexivity.
   - left. apply Hsame. inversion H. reflexivity.
+  - left. apply Hsame. match type of H with (if ?b then _ else _) = _ => destruct b end; inversion H; reflexivity.
   - left. apply Hsame. destruct ((c_state (get_conn st k) =? c_connectionClosed) || negb room); inversion H; reflexivity.
   - left. apply Hsame. destruct (c_state (get_conn st k) =? c_connectionActive); inversion H; reflexivity.
   - left. apply Hsame. destruct (frameTypeFor (f_mt f)); [|inversion H; reflexivity].
@@ -473,7 +478,8 @@ Proof.
   - cbn in Hbi. unfold timer_new in H. cbn [fst snd] in H. inversion H; subst. destruct Hj as [<-|[]]. cbn. exact Hbi.
   - unfold timer_new in H. cbn [fst snd] in H. inversion H; subst. in_cases Hj; reflexivity.
   - inversion H; subst. contradiction.
-  - inversion H; subst. contradiction.
+  - inversion H; subst. destruct Hj as [<-|[]]. reflexivity.
+  - match type of H with (if ?b then _ else _) = _ => destruct b end; inversion H; subst; contradiction.
   - destruct ((c_state (get_conn st k0) =? c_connectionClosed) || negb room); inversion H; subst; contradiction.
   - destruct (c_state (get_conn st k0) =? c_connectionActive); inversion H; subst; contradiction.
   - destruct (frameTypeFor (f_mt f)); [|inversion H; subst; contradiction].
@@ -594,7 +600,8 @@ Proof.
     destruct Hj as [<-|[]]. reflexivity.
   - (* LGc *)
     unfold step in H. destruct (negb (panicked st =? 0)); [discriminate|].
-    destruct (mem_key t (gcs st)); [|discriminate]. inversion H. subst.
+    destruct (mem_key t (gcs st)) eqn:Emem; [|discriminate]. inversion H. subst.
+    gc_delete HI.
     destruct (items_delete (set_gcs st (remove_one t (gcs st))) t) as [st' g] eqn:E. cbn [fst].
     apply items_delete_spec in E. cbn [set_gcs conns gcs threads cblog sent seen next_call items] in E.
     destruct E as (_&_&A&_&B&C&_&D). rewrite B. split; [|reflexivity]. split; [rewrite C; exact Hsn|]. split.
